@@ -4,7 +4,7 @@ modified; integrators return fresh arrays.  (spec/Memo.tla, spec/Trace_Memo.tla,
 Behaviour replay, spec -> code:
   1. TLC model-checks Memo.tla (quick: every history of <= 3 calls over 21 core bases and of <= 2 calls over all
      memo-relevant bases; thorough: <= 3 calls over all memo-relevant bases, <= 4 calls over the core bases and every
-     2-call history of the full alphabet in every layout) and refutes the defective design variants
+     2-call history of the full alphabet - without the container variants - in every layout) and refutes the defective design variants
      (MemoMC_bug_*.cfg: seven in quick, all thirteen in thorough): the refinement Memo => MemoFree is not vacuous.
   2. Histories are taken from TLC:
        pair   - the state graph of all 2-call histories (-dump dot,actionlabels) gives the (writer, reader, table)
@@ -16,6 +16,12 @@ Behaviour replay, spec -> code:
        sim-*  - `tlc -simulate` behaviours over the memo-relevant bases and over the full alphabet (2-40 calls).
   3. Every history is replayed in ONE process (harness/c20_worker.py) under PYTHONHASHSEED 0,1(,2); every distinct call
      is also evaluated alone in processes that did nothing else (hash seeds 11,13(,12)), and with contiguous arguments.
+     The alphabet includes the paths that return without doing the work (zero-duration epochs of every integrator: T = 0 and
+     T == initial_t > 0, constant / function-valued / frozen; all-frozen epochs; admixture proportions 0 / 1; projection to the same
+     sizes; ...) and the container dimension of vector arguments (list / tuple / float64 array / integer array of the parameter
+     vector, bounds, index lists, grid sizes) for the uncertainty entry points (both theta conventions, log / linear), the derivative
+     helpers and the optimisers.  After an integrator call the evaluator rewrites the returned array in place and digests the
+     arguments once more.
   4. The observations are judged by TLC with Trace_Memo.tla (clauses ResultIndependentOfHistory,
      ResultIndependentOfHashSeed, LayoutIndependent, ArgumentsUnchanged, ResultIsFresh, FootprintAsDeclared,
      CachedValuesImmutable, BookkeepingAsDeclared, CallCompletes).  No verdict is computed here.
@@ -509,6 +515,18 @@ def _run(ctx, tmpd, t0):
         kinds[h['kind']] = kinds.get(h['kind'], 0) + 1
     lays = sorted({(r['lay'], r['xl']) for r in recs})
     aliases = sorted({'%s -> %s' % (r['site'], r['alias']) for r in recs if r.get('alias')})
+    # observations that are NOT judged (the statement demands a fresh result of the integrators only): other calls whose result
+    # shares memory with an argument (documented in-place pulses, identity reorderings / keep-everything filters returning views)
+    shared = sorted({'%s (%s)' % (r['site'], r['base']) for r in recs if not r['site'].startswith('Integration.') and any(a.get('shares') for a in r['args'])})
+
+    def _container(v):
+        return v.rsplit('_', 1)[-1] if v.rsplit('_', 1)[-1] in ('list', 'tuple', 'f64', 'i64') else None
+    conts = {}
+    for r in recs:
+        c = _container(r['base'])
+        if c:
+            conts.setdefault(r['site'], set()).add(c)
+    zero = sorted({r['base'] for r in recs if r['site'].startswith('Integration.') and r['base'].rsplit('_', 2)[-2] in ('z0', 'zi')})
     cov = {
         'states': stats['states'] + st['states'], 'transitions': stats['transitions'] + st['transitions'],
         'traces_validated_against_impl': len(groups),
@@ -525,6 +543,10 @@ def _run(ctx, tmpd, t0):
                                 'uncovered': sorted(goal_t - covered)[:10]},
         'layouts_replayed': ['%s/%s' % l for l in lays],
         'cached_objects_handed_out': aliases,
+        'non_integrator_results_sharing_memory_with_an_argument_observed_not_judged': shared,
+        'zero_duration_integrator_calls_replayed': zero,
+        'integrator_results_rewritten_in_place_then_arguments_re_digested': sum(1 for r in recs if any(a.get('wrote') for a in r['args'])),
+        'vector_argument_containers_replayed': {k: sorted(v) for k, v in sorted(conts.items())},
         'exhaustive': False, 'timing_s': timing,
     }
     if binding:
@@ -535,6 +557,8 @@ def _run(ctx, tmpd, t0):
     return {'coverage': cov, 'violations': viol, 'assumptions': [
         'a "fresh interpreter" is a process forked from a parent that has only imported dadi (no dadi function was called in it); one such process per distinct call and hash seed',
         'results are compared by SHA-256 of a canonical byte encoding (dtype, shape, C-order bytes; masked entries zeroed; spectra with mask, folding flag, labels) plus up to six exact values',
+        'the container dimension (list / tuple / float64 array / integer array of a parameter vector, bounds, index list, grid-size list) is judged for ArgumentsUnchanged and history / hash-seed independence of each variant; equality of the results ACROSS containers is not demanded (an integer array is another point of the parameter space)',
+        'ResultIsFresh (integrators): no memory shared with any argument, and after the caller rewrites every entry of the returned array in place the digest of every argument is still the one taken when the call returned',
         'layout independence is bit-for-bit except for calls whose code reduces over the argument (numpy sum/dot/trapz): 1e-13 relative to the largest entry (LayoutExact in Memo.tla)',
         'the memo tables are observed through a dict subclass installed in place of the module-level dictionaries (replay processes only)',
         'Misc.perturb_params is random by contract: the call is (numpy.random.seed(k); perturb_params(...))',
